@@ -128,3 +128,13 @@ Definition ofps (t : tables) (t2 : tables2) (G : float) (psim primsim p prim : l
               o_l o; o_theta o; o_T o; o_rhill o; o_pal_h o; o_pal_k o; o_pal_ix o; o_pal_iy o;
               o_hx o; o_hy o; o_hz o; o_ex o; o_ey o; o_ez o]
   end.
+
+(* ---- round 6: the primary in the value flow (default COM / explicit / jacobi_masses) ---- *)
+Definition flow_particle_jm (front_py jm : bool) (m0 Mint : float) (t : tables) (t2 : tables2) (powt : list (float * float * float))
+    (prim : list float) (afp : bool) (pe an : Z) (v : list float) : list float :=
+  match v, prim with
+  | G :: tm :: m :: rest, [pm0; x; y; z; vx; vy; vz] =>
+      let pm' := if front_py then py_primary_mass FNum jm pm0 m m0 Mint else pm0 in
+      flow_particle front_py t t2 powt [pm'; x; y; z; vx; vy; vz] afp pe an v
+  | _, _ => []
+  end.
